@@ -39,8 +39,9 @@ def runs(tier):
                      "nl": 2, "hmin": 10, "hmax": 12 + ext}, 1),
     ]
     if not quick:
+        # no trusted oracle configured (any attestation is enough), window of two headers
         rs.append(("untrusted", {"h0": 2015, "fh": "set", "prewin": 2, "trusted": [], "deep": False, "nl": 2,
-                                 "hmin": 2013, "hmax": 2018}, 1))
+                                 "hmin": 2014, "hmax": 2017}, 1))
     return rs
 
 
@@ -54,7 +55,7 @@ def _violations_from_report(ex, rep):
         if node not in pth:
             return
         seq = [reqs[i - 1] for i in pth[node]] + tail
-        rank = (len(seq), json.dumps(seq, sort_keys=True))
+        rank = (len(seq), sum(len(trk.deviations(x)) for x in seq), json.dumps(seq, sort_keys=True))
         if key not in best or rank < best[key]["rank"]:
             best[key] = {"key": key, "what": what, "rank": rank,
                          "replay": {"kind": "tracker-seq", "cfg": ex["cfg"], "requests": seq}}
@@ -102,7 +103,15 @@ def _violations_from_trace(cfg, steps_file, rep):
         out.append({"key": trk.key_frame({"req": d["req"], "chg": d["resp"][2]}), "what": "C13b on a replayed behaviour",
                     "replay": {"kind": "tracker-seq", "cfg": cfg, "requests": seq_upto(d)}})
     for d in rep["later_bad"]:
-        q = steps[d["line"] - 2]["req"]
+        # the refused requests right before this one; the finding is attributed to the first of them
+        # that changed something, else to the first streamed one, else to the last one
+        run = []
+        i = d["line"] - 2
+        while i >= 0 and steps[i]["seq"] == d["seq"] and steps[i]["resp"][0] == 0:
+            run.insert(0, steps[i])
+            i -= 1
+        culprit = ([x for x in run if x["resp"][2] != 0] or [x for x in run if trk.streamed(x["req"])] or run[-1:])[0]
+        q = culprit["req"]
         out.append({"key": trk.key_later(q, d["req"], d["resp"][0]), "what": "C13c on a replayed behaviour",
                     "replay": {"kind": "tracker-seq", "cfg": cfg, "requests": seq_upto(d)}})
     return out
@@ -190,7 +199,7 @@ def run(pid, tier):
                 "fh": "set", "maxdev": 1}]
     if not quick:
         simcfgs.append({"interval": trk.INTERVAL, "maxreorg": 100, "trusted": ["o1", "o2", "o3"], "nl": 2, "h0": 2012,
-                        "prewin": 3, "fh": "zero", "maxdev": 2})
+                        "prewin": 3, "fh": "zero", "maxdev": 1})
     for i, sc in enumerate(simcfgs):
         d = vlib.workdir("tracker/c-%d" % i)
         seqs, sim = trk.simulate(sc, nsim, depth, vlib.seed(), d)
